@@ -26,7 +26,9 @@ def taste_ok(path, fails, what, coords=True, limit=None):
     return True
 
 
-def compare_plotfile(outdir, exp, fails, what, data_mode="bits", minmax="rows", rtol=1e-12, minmax_rtol=1e-14):
+def compare_plotfile(outdir, exp, fails, what, data_mode="bits", minmax="rows", rtol=1e-12, minmax_rtol=1e-14, geom_rtol=0.0):
+    # geom_rtol: tolerance on the cell sizes (0 = exact: tools that copy the header text; chk2plt COMPUTES them from the
+    # domain bounds and cell counts, one rounding error is not a different geometry)
     """exp: dict(names, ndims, time, geo_lo, geo_hi, L, n[lv], dx[lv], boxes[lv] = [(lo,hi)], bounds[lv] (optional),
     data[lv][b] array (..., nf), mins/maxs[lv] arrays (nb, nf) or None)."""
     try:
@@ -57,7 +59,8 @@ def compare_plotfile(outdir, exp, fails, what, data_mode="bits", minmax="rows", 
         lvi = info["levels"][lv]
         if not np.array_equal(np.asarray(info["n"][lv]), np.asarray(exp["n"][lv])):
             bad(f"grid size of level {lv} differs", f"{info['n'][lv]} vs {exp['n'][lv]}")
-        if not np.array_equal(np.asarray(info["dx"][lv], float), np.asarray(exp["dx"][lv], float)):
+        if not (np.array_equal(np.asarray(info["dx"][lv], float), np.asarray(exp["dx"][lv], float)) if geom_rtol == 0.0 else
+                np.allclose(np.asarray(info["dx"][lv], float), np.asarray(exp["dx"][lv], float), rtol=geom_rtol, atol=0.0)):
             bad(f"cell size of level {lv} differs", f"{info['dx'][lv]} vs {exp['dx'][lv]}")
         got_boxes = [(tuple(lo), tuple(hi)) for lo, hi in lvi["indexes"]]
         exp_boxes = [(tuple(lo), tuple(hi)) for lo, hi in exp["boxes"][lv]]
